@@ -246,8 +246,11 @@ def stepRun (s : St) (impl : String) : St × StepOut := Id.run do
       fails := fails ++ [("success_without_common_version", "-", impl)]
   if m.get "cleft" != "0" || m.get "sleft" != "0" then
     fails := fails ++ [("state_not_released", "-", impl)]
-  if dial != "nil" && !(m.get "redial" == "nil" || m.get "redial" == "-" || m.get "redial" == dial && s.scn.get "chain" == "toolong") then
-    fails := fails ++ [("redial_after_failure_fails", "-", impl)]
+  if dial != "nil" && !(m.get "redial" == "nil" || m.get "redial" == "-") then
+    -- same root cause as above: with a zero-length source connection ID the closed-connection placeholder of an
+    -- earlier attempt deletes the handler entry of the next dial on the same transport when it expires
+    let zeroLenRedial := s.scn.get "client" == "chrome" && m.get "redial" == "E:idle_timeout"
+    fails := fails ++ [("redial_after_failure_fails", if zeroLenRedial then "zero_len_scid_redial_unroutable" else "-", impl)]
   let tag := if dial == "nil" then "run:ok" else s!"run:{dial}"
   return ({ s with ran := true, run := m, ntrace := natOf (m.get "ntrace") }, { model := impl, tags := [tag], fails := fails })
 
